@@ -716,3 +716,195 @@ def gen_bytes_convert():
     lines.append("Definition venom_bconverts : list (Z * Z * cty * mvtemplate) := [\n" +
                  ";\n".join(f"  ({s}, {n}, {co}, {mvtemplate_term(*t)})" for s, n, co, _, t in v) + "\n].\n")
     return "\n".join(lines), l, v
+
+
+# ---------------------------------------------------------------- builtins: shift, abs, ~, addmod/mulmod, pow_mod256; flags
+def venom_recordn(f, n):
+    """venom_record with n parameters %1..%n; -> (instrs, result operand)"""
+    from vyper.venom.builder import VenomBuilder
+    from vyper.venom.context import IRContext
+    ctx = IRContext()
+    fn = ctx.create_function("probe")
+    b = VenomBuilder(ctx, fn)
+    ps = [b.param() for _ in range(n)]
+    if [p_.name for p_ in ps] != [f"%{i + 1}" for i in range(n)]:
+        raise ExportError("unexpected parameter names")
+    bb = b.current_block
+    n0 = len(bb.instructions)
+    r = f(b, *ps)
+    if b.current_block is not bb or fn.num_basic_blocks != 1:
+        raise ExportError("venom template is not straight-line")
+    return bb.instructions[n0:], r
+
+
+BLIT256 = {False: [0, 1, 7, 255, 256, 2**255, 2**256 - 1],
+           True: [-2**255, -256, -255, -1, 0, 1, 7, 255, 256, 2**255 - 1]}
+FLAG_PARTNERS = [("num", 32, False, False), ("num", 32, True, False), ("num", 16, False, False), ("num", 21, True, True),
+                 ("bool",), ("addr",), ("bytes", 32), ("bytes", 4)]
+
+
+def flag_type(n):
+    from vyper.semantics.types.user import FlagT
+    return FlagT(f"F{n}", {f"m{i}": i for i in range(n)})
+
+
+def venom_unary(T, opcls, x_of):
+    """codegen_venom/expr.py Expr.lower_UnaryOp for the operator class `opcls` on the operand x_of(b, %1)"""
+    from vyper import ast as vy_ast
+    from vyper.codegen_venom import expr as VE
+    RealExpr = VE.Expr
+
+    def g(b, x):
+        node = vy_ast.UnaryOp.__new__(vy_ast.UnaryOp)
+        operand = types.SimpleNamespace(_metadata={"type": T})
+        for k, v in (("operand", operand), ("op", getattr(vy_ast, opcls).__new__(getattr(vy_ast, opcls))), ("_metadata", {"type": T})):
+            try:
+                setattr(node, k, v)
+            except AttributeError:
+                node.__dict__[k] = v
+        fake_self = types.SimpleNamespace(node=node, ctx=None, builder=b)
+
+        class FakeExpr:
+            def __init__(self, n, c):
+                pass
+
+            def lower_value(self):
+                return x_of(b, x)
+
+        with mock.patch.object(VE, "Expr", FakeExpr):
+            vv = RealExpr.lower_UnaryOp(fake_self)
+        op = getattr(vv, "operand", None)
+        if op is None:
+            op = getattr(vv, "value", vv)
+        return op
+    return venom_recordn(g, 1)
+
+
+def builtin_templates(kind):
+    """-> [(coq bfn term, python key, literals per operand (None = variable), template)]
+    shift(x, bits) for x uint256/int256 and bits of every integer type (+ literal amounts / literal x), abs, uint256_addmod,
+    uint256_mulmod, pow_mod256 (variables and a literal in each position), ~x for uint256, bytes32 and flags of 1..256 members."""
+    from vyper import ast as vy_ast
+    from vyper.builtins import functions as BF
+    from vyper.codegen.expr import Expr
+    from vyper.codegen.ir_node import IRnode
+    from vyper.codegen_venom import expr as VE
+    from vyper.codegen_venom.builtins import math as VM
+    from vyper.codegen_venom.builtins import simple as VS
+    from vyper.semantics.types import BytesM_T, IntegerT
+    from vyper.venom.basicblock import IRLiteral
+    out = []
+    U256, I256 = IntegerT(False, 256), IntegerT(True, 256)
+    names = ["x", "y", "z"]
+
+    def legacy_call(name, tys, lits):
+        args = [IRnode.from_list(names[i] if lits[i] is None else lits[i], typ=tys[i]) for i in range(len(tys))]
+        inst = BF.DISPATCH_TABLE[name]
+        f = type(inst).build_IR
+        if hasattr(f, "__wrapped__"):
+            return f.__wrapped__(inst, None, args, {}, None)
+        objs = [object() for _ in args]
+        expr = types.SimpleNamespace(args=objs)
+        with mock.patch.object(BF.Expr, "parse_value_expr", staticmethod(lambda e, c: args[[o is e for o in objs].index(True)])):
+            return inst.build_IR(expr, None)
+
+    def venom_call(fn, tys, lits):
+        def g(b, *ps):
+            anodes = [types.SimpleNamespace(_metadata={"type": t}) for t in tys]
+            node = types.SimpleNamespace(args=anodes)
+
+            class FakeExpr:
+                def __init__(self, n, c):
+                    self.i = [a is n for a in anodes].index(True)
+
+                def lower_value(self):
+                    return ps[self.i] if lits[self.i] is None else IRLiteral(lits[self.i])
+            with mock.patch.object(VE, "Expr", FakeExpr):
+                return fn(node, types.SimpleNamespace(builder=b))
+        return venom_recordn(g, len(tys))
+
+    def call(name, vfn, tys, lits):
+        return legacy_call(name, tys, lits) if kind == "legacy" else venom_call(vfn, tys, lits)
+
+    def invert(T):
+        if kind == "venom":
+            return venom_unary(T, "Invert", lambda b, x: x)
+        x = IRnode.from_list("x", typ=T)
+        fake = types.SimpleNamespace(expr=types.SimpleNamespace(op=vy_ast.Invert.__new__(vy_ast.Invert), operand=None), context=None)
+        with mock.patch.object(Expr, "parse_value_expr", staticmethod(lambda e, c: x)):
+            return Expr.parse_UnaryOp(fake)
+
+    bl = lambda v: "true" if v else "false"  # noqa
+    with settings_ctx():
+        for sx in (False, True):
+            TX = I256 if sx else U256
+            for k, s, d, TB in num_types():
+                if not d:
+                    out.append((f"(BShift {bl(sx)} {nty(k, s, False)})", ("shift", sx, (k, s)), (None, None),
+                                call("shift", VM.lower_shift, [TX, TB], [None, None])))
+            for s in (False, True):
+                for lit in BLIT256[s]:
+                    out.append((f"(BShift {bl(sx)} {nty(32, s, False)})", ("shift", sx, (32, s)), (None, lit),
+                                call("shift", VM.lower_shift, [TX, I256 if s else U256], [None, lit])))
+            for lit in BLIT256[sx]:
+                out.append((f"(BShift {bl(sx)} {nty(32, True, False)})", ("shift", sx, (32, True)), (lit, None),
+                            call("shift", VM.lower_shift, [TX, I256], [lit, None])))
+        out.append(("BAbs", ("abs",), (None,), call("abs", VS.lower_abs, [I256], [None])))
+        for lit in BLIT256[True]:
+            out.append(("BAbs", ("abs",), (lit,), call("abs", VS.lower_abs, [I256], [lit])))
+        for nm, ctor, vfn in (("uint256_addmod", "BAddmod", VM.lower_uint256_addmod), ("uint256_mulmod", "BMulmod", VM.lower_uint256_mulmod)):
+            out.append((ctor, (nm[8:],), (None,) * 3, call(nm, vfn, [U256] * 3, [None] * 3)))
+            for pos in range(3):
+                for lit in BLIT256[False]:
+                    lits = [None] * 3
+                    lits[pos] = lit
+                    out.append((ctor, (nm[8:],), tuple(lits), call(nm, vfn, [U256] * 3, lits)))
+        out.append(("BPowMod", ("powmod",), (None, None), call("pow_mod256", VM.lower_pow_mod256, [U256] * 2, [None, None])))
+        for pos in range(2):
+            for lit in BLIT256[False]:
+                lits = [None] * 2
+                lits[pos] = lit
+                out.append(("BPowMod", ("powmod",), tuple(lits), call("pow_mod256", VM.lower_pow_mod256, [U256] * 2, lits)))
+        out.append((f"(BInvert (CNum {nty(32, False, False)}))", ("invert", ("num", 32, False, False)), (None,), invert(U256)))
+        out.append(("(BInvert (CBytes 32))", ("invert", ("bytes", 32)), (None,), invert(BytesM_T(32))))
+        for n in range(1, 257):
+            out.append((f"(BInvert (CFlag {n}))", ("invert", ("flag", n)), (None,), invert(flag_type(n))))
+    return out
+
+
+def flag_convert_templates(kind):
+    """conversions from / to flags with n = 1..256 members against FLAG_PARTNERS, in the order of ConvTie.flag_pairs"""
+    from vyper.exceptions import VyperException
+    part = {ko: (co, T) for co, ko, T in conv_types()}
+    out = []
+    with settings_ctx():
+        for n in range(1, 257):
+            F = flag_type(n)
+            for ko in FLAG_PARTNERS:
+                co, T = part[ko]
+                for a, b in (((f"(CFlag {n})", ("flag", n), F), (co, ko, T)), ((co, ko, T), (f"(CFlag {n})", ("flag", n), F))):
+                    try:
+                        t = legacy_convert(a[2], b[2]) if kind == "legacy" else venom_convert(a[2], b[2])
+                    except VyperException:
+                        continue
+                    out.append((a[0], b[0], a[1], b[1], t))
+    return out
+
+
+def opt_list(lits):
+    return "[" + "; ".join("None" if v is None else f"Some {zl(v)}" for v in lits) + "]"
+
+
+def gen_builtins():
+    l, v = builtin_templates("legacy"), builtin_templates("venom")
+    fl, fv = flag_convert_templates("legacy"), flag_convert_templates("venom")
+    lines = [HEADER.replace("C03.ArithSpec.", "C03.ArithSpec C03.ConvSpec C03.BuiltinExact.")]
+    lines.append("Definition legacy_builtins : list (bfn * list (option Z) * lir) := [\n" +
+                 ";\n".join(f"  ({c}, {opt_list(li)}, {lir_term(t)})" for c, _, li, t in l) + "\n].\n")
+    lines.append("Definition venom_builtins : list (bfn * list (option Z) * vtemplate) := [\n" +
+                 ";\n".join(f"  ({c}, {opt_list(li)}, {vtemplate_term(*t)})" for c, _, li, t in v) + "\n].\n")
+    lines.append("Definition legacy_flag_converts : list (cty * cty * lir) := [\n" +
+                 ";\n".join(f"  ({ci}, {co}, {lir_term(t)})" for ci, co, _, _, t in fl) + "\n].\n")
+    lines.append("Definition venom_flag_converts : list (cty * cty * vtemplate) := [\n" +
+                 ";\n".join(f"  ({ci}, {co}, {vtemplate_term(*t)})" for ci, co, _, _, t in fv) + "\n].\n")
+    return "\n".join(lines), l, v, fl, fv
